@@ -82,7 +82,8 @@ func init() {
 					w.Stats.Inc("recover.after-commit")
 					// ... and hold nothing else: no register outside the committed state, none missing
 					if v := w.durableReach(); v != nil {
-						if len(v.Class) >= 6 && v.Class[:6] == "reach." {
+						if len(v.Class) >= 6 && v.Class[:6] == "reach." || v.Class == "reg.parse" {
+							// a register outside the committed state, a missing one, or one that is no slab at all
 							v.Class = "recover.registers"
 						}
 						return v
